@@ -182,4 +182,118 @@ theorem cmd_epr_refines_guard (lt : Name → Name → Bool) (names : List Name) 
 example : (exec (fun a b : String => decide (a < b)) ["Bob", "Alice"] none "Alice" 1 cmdEprStmts).run.created = 2 := by
   decide
 
+/-! ### signed remote ids
+
+The remote node id of a request is the value of a NetQASM register, a signed 32-bit integer (`set R0 -3` is valid
+NetQASM).  `findRemoteI` / `cmdEprGuardI` / `execI` are the model on `rid : Int` (the loop's `==` between a list
+index and a Python int); the theorems above, stated for `rid : Nat`, carry over: an id is a known node iff
+`0 ≤ rid < number of nodes`, and EVERY negative id is refused as an unknown node with nothing created. -/
+
+/-- the lookup loop on a signed id resolves to nothing exactly for the negative ids and the ids not below the
+number of nodes, and otherwise to the name at that position of the sorted names -/
+theorem remote_lookup_int (lt : Name → Name → Bool) (names : List Name) (hnd : names.Nodup) (rid : Int) :
+    (findRemoteI lt names rid = none ↔ rid < 0 ∨ (names.length : Int) ≤ rid) ∧
+    (0 ≤ rid → findRemoteI lt names rid = (sortNames lt names)[rid.toNat]?) := by
+  rw [findRemoteI_eq]
+  refine ⟨?_, ?_⟩
+  · rw [(remote_lookup lt names hnd _).2]
+    have := idAsNat_lt_iff names rid
+    omega
+  · intro h
+    rw [idAsNat_of_nonneg names h]
+    exact (remote_lookup lt names hnd _).1
+
+example : findRemoteI (fun a b : String => decide (a < b)) ["Bob", "Alice", "Carol"] (-3) = none ∧
+          findRemoteI (fun a b : String => decide (a < b)) ["Bob", "Alice", "Carol"] (-1) = none ∧
+          findRemoteI (fun a b : String => decide (a < b)) ["Bob", "Alice", "Carol"] 0 = some "Alice" ∧
+          findRemoteI (fun a b : String => decide (a < b)) ["Bob", "Alice", "Carol"] 3 = none := by decide
+
+/-- T12.2 on signed ids: a request proceeds (towards `r`) iff `0 ≤ rid < number of nodes`, `r` is the name with
+that id, `r` is not the issuer, and `is_adjacent` holds. -/
+theorem request_allowed_iff_int (lt : Name → Name → Bool) (names : List Name) (hnd : names.Nodup)
+    (topo : Option (Topology Name)) (me : Name) (rid : Int) (r : Name) :
+    cmdEprGuardI lt names topo me rid = .proceed r ↔
+      0 ≤ rid ∧ rid < names.length ∧ (sortNames lt names)[rid.toNat]? = some r ∧ r ≠ me ∧
+        isAdjacent topo me r = true := by
+  rw [cmdEprGuardI_eq, request_allowed_iff lt names hnd, idAsNat_lt_iff]
+  constructor
+  · rintro ⟨⟨h0, h1⟩, h2, h3, h4⟩
+    rw [idAsNat_of_nonneg names h0] at h2
+    exact ⟨h0, h1, h2, h3, h4⟩
+  · rintro ⟨h0, h1, h2, h3, h4⟩
+    rw [← idAsNat_of_nonneg names h0] at h2
+    exact ⟨⟨h0, h1⟩, h2, h3, h4⟩
+
+/-- T12.2' on signed ids: unknown node iff the id is negative or not below the number of nodes; the other two
+errors only for ids in range. -/
+theorem request_refused_iff_int (lt : Name → Name → Bool) (names : List Name) (hnd : names.Nodup)
+    (topo : Option (Topology Name)) (me : Name) (rid : Int) :
+    (cmdEprGuardI lt names topo me rid = .err .unknownNode ↔ rid < 0 ∨ (names.length : Int) ≤ rid) ∧
+    (cmdEprGuardI lt names topo me rid = .err .sameNode ↔
+      0 ≤ rid ∧ (sortNames lt names)[rid.toNat]? = some me) ∧
+    (cmdEprGuardI lt names topo me rid = .err .notAdjacent ↔
+      0 ≤ rid ∧ ∃ r, (sortNames lt names)[rid.toNat]? = some r ∧ r ≠ me ∧ isAdjacent topo me r = false) := by
+  rw [cmdEprGuardI_eq]
+  obtain ⟨h1, h2, h3⟩ := request_refused_iff lt names hnd topo me (idAsNat names rid)
+  by_cases h0 : 0 ≤ rid
+  · rw [idAsNat_of_nonneg names h0] at h1 h2 h3 ⊢
+    refine ⟨h1.trans (by omega), h2.trans (by simp [h0]), h3.trans (by simp [h0])⟩
+  · have hneg : rid < 0 := by omega
+    have hout : (sortNames lt names)[idAsNat names rid]? = none := by
+      rw [idAsNat_of_neg names hneg, List.getElem?_eq_none_iff, length_sortNames]
+      exact Nat.le_refl _
+    rw [hout] at h2 h3
+    refine ⟨h1.trans ?_, h2.trans (by simp [h0]), h3.trans (by simp [h0])⟩
+    rw [idAsNat_of_neg names hneg]
+    simp [hneg]
+
+example :
+    let lt := fun a b : String => decide (a < b)
+    let topo : Option (Topology String) := some [("Bob", ["Alice", "Bob", "Carol"]), ("Alice", ["Bob"])]
+    -- ids: Alice 0, Bob 1, Carol 2; in Python `sorted(names)[-2]` is Bob and `[-3]` is Alice
+    cmdEprGuardI lt ["Bob", "Alice", "Carol"] topo "Alice" (-2) = .err .unknownNode ∧
+    cmdEprGuardI lt ["Bob", "Alice", "Carol"] topo "Bob" (-3) = .err .unknownNode ∧
+    cmdEprGuardI lt ["Bob", "Alice", "Carol"] topo "Bob" (-1) = .err .unknownNode ∧
+    cmdEprGuardI lt ["Bob", "Alice", "Carol"] topo "Bob" (-4) = .err .unknownNode ∧
+    cmdEprGuardI lt ["Bob", "Alice", "Carol"] topo "Bob" (-2147483648) = .err .unknownNode ∧
+    cmdEprGuardI lt ["Bob", "Alice", "Carol"] topo "Bob" 2147483647 = .err .unknownNode ∧
+    cmdEprGuardI lt ["Bob", "Alice", "Carol"] topo "Bob" 0 = .proceed "Alice" ∧
+    cmdEprGuardI lt ["Bob", "Alice", "Carol"] topo "Bob" 1 = .err .sameNode ∧
+    cmdEprGuardI lt ["Bob", "Alice", "Carol"] topo "Alice" 2 = .err .notAdjacent := by decide
+
+/-- T12.3 on signed ids: `cmd_epr` as written raises exactly the error of the guard with nothing created when
+the request is refused, and otherwise runs to the end towards the resolved remote node. -/
+theorem cmd_epr_refines_guard_int (lt : Name → Name → Bool) (names : List Name) (topo : Option (Topology Name))
+    (me : Name) (rid : Int) :
+    match cmdEprGuardI lt names topo me rid with
+    | .err e => ∃ r, execI lt names topo me rid cmdEprStmts = .raised (.guard e) r ∧
+        r.created = 0 ∧ r.mayHaveCreated = false
+    | .proceed x => ∃ r, execI lt names topo me rid cmdEprStmts = .done r ∧ r.remote = some x ∧
+        r.created = cmdEprStmts.count .cmdNew := by
+  rw [cmdEprGuardI_eq, execI_eq]
+  exact cmd_epr_refines_guard lt names topo me _
+
+example : (execI (fun a b : String => decide (a < b)) ["Bob", "Alice"] none "Alice" 1 cmdEprStmts).run.created = 2 ∧
+    cmdEprGuardI (fun a b : String => decide (a < b)) ["Bob", "Alice"] none "Alice" 1 = .proceed "Bob" := by decide
+
+/-- every negative remote id, for every node list (distinct names or not), every topology and every issuer, is
+refused as an unknown node by `cmd_epr` as written, and no statement that may create a qubit runs: there is no
+wrap-around to the nodes counted from the end. -/
+theorem negative_id_refused (lt : Name → Name → Bool) (names : List Name) (topo : Option (Topology Name))
+    (me : Name) (rid : Int) (hneg : rid < 0) :
+    cmdEprGuardI lt names topo me rid = .err .unknownNode ∧
+    ∃ r, execI lt names topo me rid cmdEprStmts = .raised (.guard .unknownNode) r ∧
+      r.created = 0 ∧ r.mayHaveCreated = false := by
+  have hg : cmdEprGuardI lt names topo me rid = .err .unknownNode := by
+    rw [cmdEprGuardI_eq, idAsNat_of_neg names hneg]
+    unfold cmdEprGuard
+    rw [findRemote_none_of_length_le lt names (Nat.le_refl _)]
+  refine ⟨hg, ?_⟩
+  have h := cmd_epr_refines_guard_int lt names topo me rid
+  rw [hg] at h
+  exact h
+
+example : execI (fun a b : String => decide (a < b)) ["Bob", "Alice", "Carol"] none "Alice" (-2) cmdEprStmts =
+    .raised (.guard .unknownNode) { remote := none, created := 0, mayHaveCreated := false } := by decide
+
 end SqVerif.C12
